@@ -172,4 +172,7 @@ def instance_fingerprint(instance: JobShopInstance):
             for job in instance.jobs
         ],
         "name": instance.name,
+        # cached array views handed out to callers (an observer must not write through them)
+        "dma": arr(instance.durations_matrix_array),
+        "mma": arr(instance.machines_matrix_array),
     }
